@@ -24,6 +24,7 @@ type Frame struct {
 	defers []deferred
 	env    []Value
 	result Value
+	loops  map[*ssa.If]int
 }
 
 func (e *Engine) get(fr *Frame, v ssa.Value) Value {
@@ -177,8 +178,11 @@ func (e *Engine) callRaw(fn *ssa.Function, args []Value, env []Value, isInit boo
 			case *ssa.If:
 				c := e.get(fr, x.Cond).(*Term)
 				if !c.IsConst() {
-					e.path.loopCount[x]++
-					if e.path.loopCount[x] > e.loopBound {
+					if fr.loops == nil {
+						fr.loops = map[*ssa.If]int{}
+					}
+					fr.loops[x]++
+					if fr.loops[x] > e.loopBound {
 						e.abort("UNWIND", fmt.Sprintf("%s: symbolic branch taken more than %d times", posOf(e.prog, x.Pos()), e.loopBound))
 					}
 				}
